@@ -63,6 +63,13 @@ def roundtrip_fn(kind, k, strand, chunk):
             cds = [(ex[0][0] + kw["co"], ex[0][1])] + ex[1:]
             o = _tx(ex, strand, cds=cds, frames=[CDSFrame.TWO] + [CDSFrame.ZERO] * (k - 1), q=Q, par=par)
             r = TranscriptInterval.from_dict(o.to_dict(), par)
+        elif kind == "txphase":
+            # the constructor also accepts GFF3 PHASES (CDSPhase); the serialised form must describe the frames the object actually uses
+            from inscripta.biocantor.gene.cds_frame import CDSPhase
+
+            cds = [(ex[0][0] + kw["co"], ex[0][1])] + ex[1:]
+            o = _tx(ex, strand, cds=cds, frames=[CDSPhase.ONE] + [CDSPhase.TWO] * (k - 1), q=Q, par=par)
+            r = TranscriptInterval.from_dict(o.to_dict(), par)
         elif kind == "feat":
             o = _feat(ex, strand, par=par, q=Q)
             r = FeatureInterval.from_dict(o.to_dict(), par)
@@ -93,8 +100,15 @@ def roundtrip_fn(kind, k, strand, chunk):
                                      parent_or_seq_chunk_parent=par)
             r = AnnotationCollection.from_dict(o.to_dict(), par)
         d1, d2 = o.to_dict(), r.to_dict()
+        extra = True
+        if kind in ("txcds", "txphase"):
+            # the rebuilt CDS uses the same frames, and the exported names are those frames
+            extra = [f.name for f in o.cds.frames] == [f.name for f in r.cds.frames] == list(d1["cds_frames"]) and \
+                [f.name for f in o.cds.chunk_relative_frames] == [f.name for f in r.cds.chunk_relative_frames]
+        elif kind == "cds":
+            extra = [f.name for f in o.frames] == [f.name for f in r.frames] == list(d1["cds_frames"])
         return AND(DEQ(d1, d2), o.start == r.start, o.end == r.end, type(o) is type(r), o.guid == r.guid,
-                   DEQ(o.to_dict(), d1))
+                   DEQ(o.to_dict(), d1), extra)
 
     return fn
 
@@ -394,20 +408,20 @@ def schema_fn():
 def obligations(tier):
     out = []
     quick = tier == "quick"
-    kinds = [("cds", 2), ("tx", 2), ("txcds", 2), ("feat", 2), ("gene", 2), ("fcoll", 2), ("variant", 1), ("vcoll", 2), ("acoll", 2)]
+    kinds = [("cds", 2), ("tx", 2), ("txcds", 2), ("txphase", 2), ("feat", 2), ("gene", 2), ("fcoll", 2), ("variant", 1), ("vcoll", 2), ("acoll", 2)]
     for kind, k in kinds:
         for strand in ((PLUS,) if quick and kind in ("variant", "vcoll", "gene", "fcoll", "acoll") else (PLUS, MINUS)):
             for chunk in ((False,) if quick and kind not in ("tx", "feat", "acoll") else (False, True)):
                 params = dict(layout_params(k))
                 if chunk:
                     params["w"] = int
-                if kind == "txcds":
+                if kind in ("txcds", "txphase"):
                     params["co"] = int
 
                 def pre(k=k, chunk=chunk, kind=kind, **kw):
                     if not layout_pre(k, kw, min_len=1, min_gap=1):
                         return False
-                    if kind == "txcds" and not (0 <= kw["co"] and kw["co"] < kw["l0"]):
+                    if kind in ("txcds", "txphase") and not (0 <= kw["co"] and kw["co"] < kw["l0"]):
                         return False
                     if chunk:
                         end = kw["s0"] + sum(kw["l%d" % i] for i in range(k)) + sum(kw["g%d" % i] for i in range(1, k))
